@@ -13,6 +13,9 @@ import Drivers.SessHbD
 import Drivers.F8cD
 import Drivers.SessD
 import Drivers.FramerD
+import Drivers.GapD
+import Drivers.DuoD
+import Drivers.ConcD
 import Drivers.MpmcD
 
 def main (args : List String) : IO UInt32 := do
@@ -25,6 +28,7 @@ def main (args : List String) : IO UInt32 := do
   | ["store"] => Drivers.loop stdin Drivers.StoreD.St.none Drivers.StoreD.step; return 0
   | ["crash"] => Drivers.loop stdin Fix8Model.Store.FS.init Drivers.CrashD.step; return 0
   | ["rot"] => Drivers.loop stdin () (fun _ l => ((), Drivers.RotD.step l)); return 0
+  | ["codec44"] => Drivers.loop stdin () (fun _ l => ((), Drivers.CodecD.step44 l)); return 0
   | ["codec"] => Drivers.loop stdin () (fun _ l => ((), Drivers.CodecD.step l)); return 0
   | ["timer"] => Drivers.loop stdin ({} : Drivers.TimerD.St) Drivers.TimerD.step; return 0
   | ["xml"] => Drivers.loop stdin () (fun _ l => ((), Drivers.XmlD.step l)); return 0
@@ -36,4 +40,7 @@ def main (args : List String) : IO UInt32 := do
   | ["sess"] => Drivers.loop stdin (Drivers.SessD.init true) Drivers.SessD.step; return 0
   | ["sessbase"] => Drivers.loop stdin (Drivers.SessD.init false) Drivers.SessD.step; return 0
   | ["framer"] => Drivers.loop stdin () (fun _ l => ((), Drivers.FramerD.step l)); return 0
+  | ["gap"] => Drivers.loop stdin (none : Option Fix8Model.Session.Comp) Drivers.GapD.step; return 0
+  | ["duo"] => Drivers.loop stdin (none : Option Fix8Model.Session.Duo) Drivers.DuoD.step; return 0
+  | ["conc"] => Drivers.loop stdin Drivers.ConcD.St.none Drivers.ConcD.step; return 0
   | _ => IO.eprintln "usage: driver <stream>"; return 2
